@@ -49,7 +49,8 @@ RomanStep(e) ==
   CASE e.op = "roman.set" -> RomanSet(e.max, e.fmt) /\ Note(<<>>)
     [] e.op = "roman.fmtall" -> UNCHANGED rvars /\ Note(FmtAllDemands(e))
     [] e.op = "roman.paths" -> RomanMarshalText(e.n) /\ Note(PathsDemands(e))
+    [] e.op = "roman.utext" -> RomanUnmarshalText(e.in) /\ Note(UTextDemands(e, rRet', rRecv', e.recv))
     [] e.op = "roman.parse" -> RomanParse(e.in, e.rule) /\ Note(RParseDemands(e, rRet'))
 
-IsRomanOp(e) == e.op \in {"roman.set", "roman.fmtall", "roman.paths", "roman.parse"}
+IsRomanOp(e) == e.op \in {"roman.utext", "roman.set", "roman.fmtall", "roman.paths", "roman.parse"}
 =============================================================================
